@@ -73,3 +73,12 @@ package exporter
 //@ func github.com/getkin/kin-openapi/openapi3.NewQueryParameter
 //@   trusted
 //@   fresh
+
+// Every member of an enumeration is exported, whatever its number (sparse, negative or large values included).
+//@ func convertEnum
+//@   maypanic
+//@   ghostclear @iter:0 kept
+//@   ghostclear @iter:1 kept
+//@   ghostset @call:builtin:append kept
+//@   loop 0 step [every-member-is-collected] ghost("kept")
+//@   loop 1 step [every-collected-member-is-named] ghost("kept")
